@@ -18,3 +18,5 @@ def run(rep, tier, seed):
     lines = scalar.gen(seed, tier)
     vlib.run_stream(rep, "scalar", "scalar", "scalar", lines, oracle=scalar.oracle,
                     nontrivial=scalar.nontrivial)
+    import C08_scalars2
+    C08_scalars2.streams(rep, tier, seed)
